@@ -356,6 +356,8 @@ impl Case {
 fn gen_case(rng: &mut Rng, small: bool) -> Case {
     let q = match rng.below(10) { 0 => 0, 1 => 1, 2 => *rng.pick(&[10, 11]), _ => rng.range(2, 9) as i32 };
     let t = match rng.below(8) { 0 => 1, 1 => 16, 2 => rng.range(9, 15), _ => rng.range(2, 8) } as usize;
+    // quality 7..11 zeroes 8–32 MB of hash table per job: mostly few threads there
+    let t = if q >= 7 && t > 4 && !rng.chance(1, 4) { rng.range(2, 4) as usize } else { t };
     let (lgwin, n): (i32, usize) = if small {
         match rng.below(6) {
             0 => (rng.range(10, 24) as i32, rng.below(t as u64 + 2) as usize),              // shorter than the thread count
@@ -430,9 +432,10 @@ fn search_case(c: &Case, rep: &mut Report, pool: &mut Pool, rng: &mut Rng) {
     let cap = if c.q >= 2 { bound } else { bound + c.n / 2 + 4096 };
     let th = run_multi(Spawner::Threads, &params, &input, t, cap, None); check(&th, "threads", cap, rep);
     let pf = run_multi(Spawner::PoolFresh, &params, &input, t, cap, None); check(&pf, "pool", cap, rep);
-    let pr = run_multi(Spawner::PoolFresh, &params, &input, t, cap, Some(pool)); check(&pr, "pool-reused", cap, rep);
+    let heavy = c.q >= 7 && t > 4;
+    let pr = if heavy { pf.clone() } else { let pr = run_multi(Spawner::PoolFresh, &params, &input, t, cap, Some(pool)); check(&pr, "pool-reused", cap, rep); pr };
     let il = run_multi(Spawner::Inline, &params, &input, t, cap, None); check(&il, "inline", cap, rep);
-    let th2 = run_multi(Spawner::Threads, &params, &input, t, cap + 1 + rng.below(5000) as usize, None); check(&th2, "threads", cap + 1, rep);
+    let th2 = if heavy { th.clone() } else { let th2 = run_multi(Spawner::Threads, &params, &input, t, cap + 1 + rng.below(5000) as usize, None); check(&th2, "threads", cap + 1, rep); th2 };
     if c.q < 2 && th.class != "ok" { rep.count("q01.bound_not_enough"); }
     let same = |a: &Outcome, b: &Outcome| a.class == b.class && a.bytes == b.bytes;
     if th.class != "panic" && il.class != "panic" {
@@ -463,6 +466,7 @@ fn search_case(c: &Case, rep: &mut Report, pool: &mut Pool, rng: &mut Rng) {
         let l = th.bytes.len();
         let mut caps = vec![l, l.saturating_sub(1), rng.below(l as u64 + 1) as usize, rng.below(7) as usize];
         if rng.chance(1, 2) { caps.push(l / 2); }
+        if heavy { caps.truncate(2); }
         for (k, cp) in caps.into_iter().enumerate() {
             let sp = [Spawner::Inline, Spawner::Threads, Spawner::PoolFresh][(k + c.t) % 3];
             let o = run_multi(sp, &params, &input, t, cp, if sp == Spawner::PoolFresh && k % 2 == 0 { Some(&mut *pool) } else { None });
@@ -472,7 +476,7 @@ fn search_case(c: &Case, rep: &mut Report, pool: &mut Pool, rng: &mut Rng) {
         }
     }
     // every job recomputed: Ok must mean a finished stream (compress_part cannot see a truncated part)
-    if c.n <= 60000 {
+    if c.n <= 60000 && !heavy {
         for (i, j) in recompute_jobs(&params, &input, t).iter().enumerate() {
             if j.bytes.is_some() && !j.finished { rep.violation("multi:part-truncated", &format!("job {} reports Ok({}) for an unfinished stream (buffer of BrotliEncoderMaxCompressedSize({}) bytes too small)", i, j.bytes.as_ref().unwrap().len(), j.hi - j.lo), c.json("")); }
             if j.token == "err" || j.token == "spin" || j.token == "panic" { rep.count(&format!("job.{}", j.token)); }
@@ -509,7 +513,7 @@ fn corr_case(c: &Case, lines: &mut Vec<(String, String)>, rep: &mut Report, pool
     let refo = run_multi(Spawner::Inline, &params, &input, t, bound + n + 4096, None);
     let l = if refo.class == "ok" { refo.bytes.len() } else { bound };
     let mut caps: Vec<(usize, Spawner, bool)> = vec![(bound + n + 4096, Spawner::Inline, false), (bound, Spawner::Threads, false), (bound, Spawner::PoolFresh, false), (bound + 7, Spawner::PoolFresh, true), (l, Spawner::Threads, false), (l.saturating_sub(1), Spawner::Inline, false)];
-    for k in 0..4 { let sp = [Spawner::Inline, Spawner::Threads, Spawner::PoolFresh][(k + t) % 3]; caps.push((match k { 0 => rng.below(l as u64 + 1) as usize, 1 => rng.below(8) as usize, 2 => rng.below(l as u64 + 1) as usize, _ => l.saturating_sub(rng.below(6) as usize) }, sp, k == 2)); }
+    for k in 0..(if c.q >= 7 && t > 4 { 1 } else { 4 }) { let sp = [Spawner::Inline, Spawner::Threads, Spawner::PoolFresh][(k + t) % 3]; caps.push((match k { 0 => rng.below(l as u64 + 1) as usize, 1 => rng.below(8) as usize, 2 => rng.below(l as u64 + 1) as usize, _ => l.saturating_sub(rng.below(6) as usize) }, sp, k == 2)); }
     for (cap, sp, reuse) in caps {
         let o = run_multi(sp, &params, &input, t, cap, if reuse && sp == Spawner::PoolFresh { Some(&mut *pool) } else { None });
         beat();
@@ -524,6 +528,9 @@ pub fn run_cmd(args: &Args) {
     if args.rest.get(0).map(|s| s.as_str()) == Some("probe") { return probe(args); }
     let thorough = args.tier == "thorough";
     let seed = args.seed;
+    // keep freed encoder tables in the heap: repeated mmap/munmap of 1–32 MB blocks (zero-fill page
+    // faults) dominated the run time otherwise.  Allocation behaviour only; no effect on results.
+    unsafe { extern "C" { fn mallopt(param: i32, value: i32) -> i32; } mallopt(-3, 32 << 20); mallopt(-1, 1 << 30); }
     // watchdog: a hang (e.g. a pool join that never returns) is an observation, not a harness hang
     { let out = args.out.clone(); std::thread::spawn(move || { let mut last = 0; let mut idle = 0; loop { std::thread::sleep(std::time::Duration::from_secs(2)); let b = BEAT.load(std::sync::atomic::Ordering::SeqCst); if b == last { idle += 1; if idle > 90 { let mut rep = Report::default(); rep.violation("multi:hang", "no CompressMulti call returned for 180 s (a join that never returns?)", "{}".into()); rep.write(&out); std::process::exit(0); } } else { idle = 0; last = b; } } }); }
     let t0 = std::time::Instant::now();
